@@ -163,6 +163,8 @@ pub struct Out {
     pub oracle_evals: u64,
     pub oracle_stats: BTreeMap<String, u64>,
     pub violations: Vec<Violation>,
+    /// every violation counted by class, also beyond the cap on recorded violations
+    pub class_counts: BTreeMap<String, u64>,
     pub known: Vec<(String, bool, String)>, // id, still fails, description
     pub notes: Vec<String>,
 }
@@ -188,6 +190,7 @@ impl Out {
             oracle_evals: 0,
             oracle_stats: BTreeMap::new(),
             violations: Vec::new(),
+            class_counts: BTreeMap::new(),
             known: Vec::new(),
             notes: Vec::new(),
         }
@@ -232,6 +235,7 @@ impl Out {
     }
 
     pub fn violation(&mut self, class: &str, desc: String, input: String) {
+        *self.class_counts.entry(class.to_string()).or_default() += 1;
         if self.violations.len() < 200 {
             self.violations.push(Violation { class: class.to_string(), desc, input });
         }
@@ -317,6 +321,8 @@ impl Out {
             .map(|v| format!("{{\"class\":{},\"desc\":{},\"input\":{}}}", json_str(&v.class), json_str(&v.desc), v.input))
             .collect();
         let _ = writeln!(s, " \"violations\": [{}],", vs.join(",\n  "));
+        let cc: Vec<String> = self.class_counts.iter().map(|(k, v)| format!("{}:{}", json_str(k), v)).collect();
+        let _ = writeln!(s, " \"class_counts\": {{{}}},", cc.join(","));
         let ks: Vec<String> = self
             .known
             .iter()
